@@ -3,7 +3,7 @@
    any depth and fan-out. *)
 From Coq Require Import List ZArith Bool Lia.
 Import ListNotations.
-From GU Require Import C03.Model.
+From GU Require Import C03.Model C03.Concrete.
 Local Open Scope Z_scope.
 
 (* ---- induction principle for the nested inductive [entry] ---- *)
@@ -226,7 +226,7 @@ Section Entries.
   Proof.
     intros Hsub. unfold tot_ok, cnt_ok, file_eff. cbv zeta.
     destruct (too_deep lim (entry_depth lim cur d)); [split; simpl; discriminate|].
-    destruct ((0 <? max_depth lim) && (entry_depth lim cur d >? max_depth lim)); [split; simpl; discriminate|].
+    destruct ((max_depth lim >? 0) && (entry_depth lim cur d >? max_depth lim)); [split; simpl; discriminate|].
     destruct (negb op); [split; simpl; discriminate|].
     destruct (i64 decl >? max_file lim); [split; simpl; discriminate|].
     destruct (negb ((i64 decl =? act) && crc)) eqn:Ht; [split; simpl; discriminate|].
@@ -249,6 +249,7 @@ Section Entries.
       + rewrite files_total_app, files_total_parent. lia.
       + rewrite nfiles_app, nfiles_parent. lia.
     - pose proof (count01 lim zn).
+      replace (if recursive lim then to_u64 (i64 decl) else to_u64 (i64 decl)) with (to_u64 (i64 decl)) by (destruct (recursive lim); reflexivity).
       split; simpl; intros _; (split; [|discriminate]).
       + rewrite files_total_app, files_total_parent. simpl. lia.
       + rewrite nfiles_app, nfiles_parent. simpl. lia.
@@ -298,7 +299,7 @@ Section Entries.
     assert (Hnz : node_size_ok (NFile (base + d) 0)) by (simpl; lia).
     pose proof (parent_size_ok base d) as Hp.
     destruct (too_deep lim (entry_depth lim cur d)); [simpl; auto|].
-    destruct ((0 <? max_depth lim) && (entry_depth lim cur d >? max_depth lim)); [simpl; auto|].
+    destruct ((max_depth lim >? 0) && (entry_depth lim cur d >? max_depth lim)); [simpl; auto|].
     destruct (negb op); [simpl; split; [auto|apply Forall_app; auto]|].
     destruct (Z.gtb_spec (i64 decl) (max_file lim)) as [Hgt|Hle]; [simpl; split; [auto|apply Forall_app; auto]|].
     assert (Hc : 0 <= copied (i64 decl) act <= max_file lim /\ copied (i64 decl) act <= decl).
@@ -344,7 +345,7 @@ Section Entries.
     assert (Hp : Forall (fun n => node_depth n <= max_depth lim) (parent_dir cur d)).
     { unfold parent_dir; destruct (0 <? d); repeat constructor. simpl. lia. }
     assert (Hf : forall s, node_depth (NFile (cur + d) s) <= max_depth lim) by (intros; simpl; lia).
-    destruct ((0 <? max_depth lim) && (d + cur >? max_depth lim)); [simpl; auto|].
+    destruct ((max_depth lim >? 0) && (d + cur >? max_depth lim)); [simpl; auto|].
     destruct (negb op); [simpl; apply Forall_app; auto|].
     destruct (i64 decl >? max_file lim); [simpl; apply Forall_app; auto|].
     destruct (negb ((i64 decl =? act) && crc)); [simpl; apply Forall_app; auto|].
@@ -386,7 +387,7 @@ Section Entries.
   Proof.
     intros Hdecl Hact. unfold file_eff. cbv zeta.
     destruct (too_deep lim (entry_depth lim cur d)); [simpl; discriminate|].
-    destruct ((0 <? max_depth lim) && (entry_depth lim cur d >? max_depth lim)); [simpl; discriminate|].
+    destruct ((max_depth lim >? 0) && (entry_depth lim cur d >? max_depth lim)); [simpl; discriminate|].
     destruct op; [|simpl; discriminate]. simpl negb. cbv iota.
     destruct (i64 decl >? max_file lim); [simpl; discriminate|].
     destruct (negb ((i64 decl =? act) && crc)) eqn:Ht; [simpl; discriminate|].
@@ -437,7 +438,7 @@ Section Entries.
     apply Z.eqb_eq in Ht. apply Z.ltb_lt in Hsmall. subst op crc act.
     unfold stop_tl, file_eff. cbv zeta.
     destruct (too_deep lim (entry_depth lim cur d)); [simpl; auto|].
-    destruct ((0 <? max_depth lim) && (entry_depth lim cur d >? max_depth lim)); [simpl; auto|].
+    destruct ((max_depth lim >? 0) && (entry_depth lim cur d >? max_depth lim)); [simpl; auto|].
     simpl negb. cbv iota.
     destruct (Z.gtb_spec (i64 decl) (max_file lim)); [simpl; auto|].
     destruct (i64_cases decl Hdecl) as [[E L]|[E L]]; [|lia].
@@ -495,7 +496,7 @@ Section Entries.
       apply Z.eqb_eq in H1. subst act.
       revert H. unfold file_eff. cbv zeta.
       destruct (too_deep lim (entry_depth lim cur d)); [simpl; discriminate|].
-      destruct ((0 <? max_depth lim) && (entry_depth lim cur d >? max_depth lim)); [simpl; discriminate|].
+      destruct ((max_depth lim >? 0) && (entry_depth lim cur d >? max_depth lim)); [simpl; discriminate|].
       destruct (negb op); [simpl; discriminate|].
       destruct (i64 decl >? max_file lim); [simpl; discriminate|].
       destruct (negb ((i64 decl =? decl) && crc)) eqn:Ht; [simpl; discriminate|].
